@@ -391,7 +391,7 @@ def exec_case(case, cfg):
     for e in events:
         e["op"] = ops_by[(e["thread"], e["idx"])]
     nops = sum(len(p) for p in case["threads"])
-    stats = {"ops": nops, "steps": s.total_steps, "switches": len(s.switches), "runs_with_cold_compile": int(len(case.get("warm", [])) < len({o[1] for p in case["threads"] for o in p if o[0] == "call"}))}
+    stats = {"ops": nops, "ok_calls": sum(1 for e in events if e["op"][0] == "call" and e["out"][0] != "exc"), "steps": s.total_steps, "switches": len(s.switches), "runs_with_cold_compile": int(len(case.get("warm", [])) < len({o[1] for p in case["threads"] for o in p if o[0] == "call"}))}
     faults = {k: v for k, v in s.stats.items() if k.startswith("F-")}
     probes = {"boundary_switches": s.stats["boundary_switches"], "switch_inside_registry_get": s.preempt_where.get("get", 0) + s.preempt_where.get("_get", 0) + s.preempt_where.get("__init__", 0),
               "switch_inside_enter_exit": s.preempt_where.get("enter", 0) + s.preempt_where.get("exit", 0) + s.preempt_where.get("_enter", 0) + s.preempt_where.get("_exit", 0),
@@ -506,9 +506,9 @@ def shrink_case(case, klass, cfg):
 # driver side
 # ------------------------------------------------------------------------------------------------
 def plan(tier):
-    n = 2400 if tier == "quick" else 60000
+    n = 6000 if tier == "quick" else 120000
     return {"groups": [{"env": {"hashseed": 0}, "indices": list(range(n))}], "n_workers": 16, "chunk": 20 if tier == "quick" else 50,
-            "wall_per_chunk": 900.0, "cfg": {"wall_per_run": 120, "opcode": tier == "thorough"}, "recycle_after": 2000}
+            "wall_per_chunk": 900.0, "vacuity": ("ok_calls", 0.3), "cfg": {"wall_per_run": 120, "opcode": tier == "thorough"}, "recycle_after": 2000}
 
 
 def describe(results, agg):
